@@ -74,7 +74,7 @@ def run(tier):
     # ---- 2. correspondence (a sample of every family + every case the oracle flagged)
     corr_n = 0
     if model_ok:
-        per_tag = 80 if tier == 'quick' else 600
+        per_tag = 45 if tier == 'quick' else 250
         by_tag = {}
         for i, c in enumerate(cases):
             by_tag.setdefault(c['tag'], []).append(i)
